@@ -436,7 +436,7 @@ fn labels(c: &mut Case, n: &Name, m_one: bool) {
     c.nontrivial(n.special >= 2 || reduces_to_empty(b));
 }
 
-fn main() {
+pub fn main() {
     let mut ck = Check::new("C15", "exploration");
     ck.rule("Byte strings of length 0..~45 from six generators: special fragments ('.', '/', '@', '{', '*', ':', '~', '^', '?', '[', '\\\\', SP, TAB, LF, DEL, 0x01, 0x1f, 0x80, 0xff, '.lock', '..', '@{', '//', '/.', './', ...) mixed with words; valid multi-component names with 0..3 inserted/replacing special fragments at start/end/random position; raw strings over the special alphabet; strings of only '/' and '.'; one-level mostly upper-case names; names with one embedded control byte incl. NUL. Non-trivial: >= 2 distinct special fragments, or the name is empty/only slashes (reduces to empty). Distinct by name bytes.");
     ck.assume(&format!(
@@ -471,7 +471,7 @@ fn main() {
     });
 
     // one case = 10 names put to real git (2 processes each, 3 with the sanitized form)
-    ck.sub("git-vote", SubCfg::new(250, 5_000).max_len(1024).max_shrink(40), |t, c| {
+    ck.sub("git-vote", SubCfg::new(200, 5_000).max_len(1024).max_shrink(40), |t, c| {
         let mut names = Vec::new();
         for _ in 0..10 {
             let n = gen_name(t);
@@ -533,12 +533,7 @@ fn main() {
                     );
                 }
             }
-            // sanitized form against git directly; the all-slash class is a known panic (covered by the
-            // `sanitize` sub-check), keep the batch alive
-            if reduces_to_empty(b) && !b.is_empty() {
-                c.label("skipped-only-slashes");
-                continue;
-            }
+            // sanitized form against git directly
             let out = gix_validate::reference::name_partial_or_sanitize(b.as_bstr());
             let g_out = if out.as_slice() == b.as_slice() {
                 Some(g_one) // same question as above
